@@ -92,6 +92,24 @@ func (r *FnRun) lookupLocal(env *specEnv, name string) (Val, bool) {
 	if env.fr == nil {
 		return nil, false
 	}
+	// a variable captured by reference: its current value is behind the
+	// free variable's pointer
+	for _, fv := range env.fr.fn.FreeVars {
+		if fv.Name() != name {
+			continue
+		}
+		if pv, ok := env.fr.vals[fv].(PtrVal); ok {
+			if _, isPtr := fv.Type().(*types.Pointer); isPtr && (pv.Kind == pkHeap || pv.Kind == pkCell) {
+				if pv.Kind == pkCell {
+					if v, ok := env.st.cells[pv.Cell]; ok {
+						return v, true
+					}
+					continue
+				}
+				return r.specLoad(env.st, pv), true
+			}
+		}
+	}
 	var best *Cell
 	var bestPtr PtrVal
 	for v, val := range env.fr.vals {
@@ -191,6 +209,19 @@ func (r *FnRun) evalIdent(name string, env *specEnv) Val {
 	if env.useCells {
 		if v, ok := r.lookupLocal(env, name); ok {
 			return v
+		}
+	}
+	// a variable the closure captured by reference is shared state: its name
+	// means its value in the state being looked at (old(x) for the entry value)
+	if env.fr != nil && env.fr.fn != nil {
+		for _, fv := range env.fr.fn.FreeVars {
+			if fv.Name() == name {
+				if pv, ok := env.fr.vals[fv].(PtrVal); ok && pv.Kind == pkCell {
+					if v, ok := env.st.cells[pv.Cell]; ok {
+						return v
+					}
+				}
+			}
 		}
 	}
 	if v, ok := env.vars[name]; ok {
